@@ -213,6 +213,8 @@ mod body;
 pub mod dkim;
 pub mod header;
 mod mailbox;
+#[cfg(feature = "verif-hooks")]
+pub(crate) use self::mailbox::verif_parsers;
 mod mimebody;
 
 use crate::{
